@@ -634,3 +634,12 @@ def capacity_ok(d, w, rows=None, ovf=None):
   if rows is not None and not rows.get("J_ok", True):
     return False
   return True
+
+
+def hessian_condition(P):
+  """Condition number of the Newton Hessian M + J^T D J (+ cone terms) at qacc_smooth; inf if not positive definite."""
+  try:
+    ev = np.linalg.eigvalsh(grad_cost(P, P["qacc_smooth"], want_hess=True)[5])
+    return float(ev[-1] / ev[0]) if ev[0] > 0 else np.inf
+  except np.linalg.LinAlgError:
+    return np.inf
